@@ -195,31 +195,59 @@ def replay_parallel(binary, common_args, npaths, outdir, procs=None, crash_tag=N
                              stdin=subprocess.DEVNULL, stdout=subprocess.DEVNULL, stderr=subprocess.PIPE)
         running.append((p, job, out, prog))
 
+    import struct
+    stall_s = float(os.environ.get('VERIF_REPLAY_STALL_S', '6'))
+
+    def read_progress(prog):
+        try:
+            raw = open(prog, 'rb').read(16)
+            if len(raw) == 16:
+                return struct.unpack('<QQ', raw)
+        except OSError:
+            pass
+        return (-1, -1)
+
     for j in jobs:
         start(j)
+    last = {}
     while running:
-        p, job, out, prog = running.pop(0)
-        _, err = p.communicate()
-        if os.path.exists(out):
-            for line in open(out):
-                try:
-                    r = json.loads(line)
-                except ValueError:
+        time.sleep(0.05)
+        for entry in list(running):
+            p, job, out, prog = entry
+            rc = p.poll()
+            hung = False
+            if rc is None:
+                cur = read_progress(prog)
+                prev = last.get(id(p))
+                now = time.time()
+                if prev is None or prev[0] != cur:
+                    last[id(p)] = (cur, now)
                     continue
-                (summaries if r.get('summary') else records).append(r)
-        if p.returncode != 0:
-            # The process died (signal / abort): data about the code under test.
-            import struct
-            path_idx, step_idx = -1, -1
-            if os.path.exists(prog):
-                raw = open(prog, 'rb').read(16)
-                if len(raw) == 16:
-                    path_idx, step_idx = struct.unpack('<QQ', raw)
-            crashes.append({'path': path_idx, 'step': step_idx, 'rc': p.returncode,
-                            'stderr': (err or b'').decode(errors='replace')[-600:]})
-            lo, hi, i, gen = job
-            if 0 <= path_idx < hi - 1 and gen < 50:
-                start([path_idx + 1, hi, i, gen + 1])
+                if now - prev[1] < stall_s:
+                    continue
+                # No progress for stall_s seconds: the code under test hangs.
+                p.kill()
+                hung = True
+            running.remove(entry)
+            _, err = p.communicate()
+            if os.path.exists(out):
+                for line in open(out):
+                    try:
+                        r = json.loads(line)
+                    except ValueError:
+                        continue
+                    (summaries if r.get('summary') else records).append(r)
+            if p.returncode != 0:
+                # The process died (signal / abort) or hung: data about the code under test.
+                path_idx, step_idx = read_progress(prog)
+                if path_idx >= (1 << 63):
+                    path_idx = -1
+                crashes.append({'path': path_idx, 'step': step_idx, 'rc': 'hang' if hung else p.returncode,
+                                'stderr': (err or b'').decode(errors='replace')[-600:]})
+                lo, hi, i, gen = job
+                # Enough evidence after a few: do not re-run a slice for ever.
+                if 0 <= path_idx < hi - 1 and gen < (5 if hung else 20):
+                    start([path_idx + 1, hi, i, gen + 1])
     return records, summaries, crashes
 
 
